@@ -193,10 +193,69 @@ def enum_rebuild(seed):
             "cases": cases, "failures": fails}
 
 
+def enum_validate_histories(seed):
+    """histories on the real validate_entry: the same recorded entry validated against eclass databases whose current state differs
+    between the calls (an eclass edited, removed, shadowed by another repository), on one cache object and on fresh ones"""
+    import types
+    import pkgcore.cache as C
+    import pkgcore.ebuild.eclass_cache as EC
+    F_, T_ = False, True
+
+    def mkdb(cur):
+        db = EC.base.__new__(EC.base)
+        try:
+            EC.base.__init__(db)
+        except Exception:
+            pass
+        db.__dict__["_eclasses"] = {k: types.SimpleNamespace(mtime=m, path=f"{d}/{k}", eclassdir=d) for k, (m, d) in cur.items()}
+        db.__dict__.setdefault("_eclass_data_inst_cache", {})
+        return db
+
+    def mkcache():
+        c = C.base.__new__(C.base)
+        c.__dict__.update({"_chf_key": "_mtime_", "chf_type": "mtime"})
+        try:
+            object.__setattr__(c, "_chf_key", "_mtime_")
+            object.__setattr__(c, "chf_type", "mtime")
+        except Exception:
+            pass
+        return c
+    states = [{"a": (1, "/e"), "b": (2, "/e")}, {"a": (5, "/e"), "b": (2, "/e")}, {"b": (2, "/e")}, {"a": (1, "/overlay"), "b": (2, "/e")}]
+    recorded = [(("a", (("mtime", 1),)),), (("a", (("mtime", 1),)), ("b", (("mtime", 2),))), (("a", (("eclassdir", "/e"), ("mtime", 1))),), ()]
+
+    def current(rec, cur):
+        return all(nm in cur and all({"mtime": cur[nm][0], "eclassdir": cur[nm][1]}[k] == v for k, v in pairs) for nm, pairs in rec)
+    cases, fails = 0, []
+    for rec in recorded:
+        for hist in [(s1, s2, fresh) for s1 in range(len(states)) for s2 in range(len(states)) for fresh in (F_, T_)]:
+            s1, s2, fresh = hist
+            cache = mkcache()
+            for step, si in enumerate((s1, s2)):
+                if step == 1 and fresh:
+                    cache = mkcache()
+                item = {"_mtime_": 7, "INHERIT": "a b"}
+                if rec:
+                    item["_eclasses_"] = rec
+                cases += 1
+                try:
+                    got = cache.validate_entry(item, types.SimpleNamespace(mtime=7), mkdb(states[si]))
+                except Exception as e:
+                    if len(fails) < 3:
+                        fails.append({"model": {"recorded": list(map(list, rec)), "history": [states[s1], states[s2]], "fresh_cache_object": fresh}, "detail": f"validate_entry raised {type(e).__name__}: {e}"})
+                    break
+                want = current(rec, states[si])
+                if bool(got) != want and len(fails) < 3:
+                    fails.append({"model": {"recorded": [list(r) for r in rec], "history": [states[s1], states[s2]], "fresh_cache_object": fresh, "call": step + 1},
+                                  "detail": f"entry recording {rec} validated against eclass state {states[s1]} and then {states[s2]} ({'a fresh' if fresh else 'the same'} cache object): "
+                                            f"call {step + 1} says {'valid' if got else 'stale'}, the recorded eclasses are {'current' if want else 'not current'} there"})
+    return {"name": "C48.validate_entry.bounded_enumeration", "bound": "4 recorded eclass sets x every ordered pair of 4 eclass-database states (unchanged, an eclass edited, removed, shadowed from another directory) "
+            "x the same / a fresh cache object, on the real validate_entry and rebuild_cache_entry", "cases": cases, "failures": fails}
+
+
 def tasks():
     return [
         Task("C48.rebuild_cache_entry", t_rebuild, [(F_ECL, "base.rebuild_cache_entry")], enumerate=enum_rebuild),
-        Task("C48.validate_entry", t_validate, [(F_CACHE, "base.validate_entry")]),
+        Task("C48.validate_entry", t_validate, [(F_CACHE, "base.validate_entry")], enumerate=enum_validate_histories),
     ]
 
 
